@@ -43,7 +43,7 @@ def gen(rng, tier):
 
 globals().update(acct_prop.make(
     'C04', components=['order.lifecycle'], clauses=['C04.'], gen=gen, analyser=matching.analyse, prelude=matching.PRELUDE,
-    coq=['Model/Matcher.v', 'Model/Order.v', 'Model/Broker.v', 'Proofs/OrderFacts.v', 'Proofs/BrokerFacts.v', 'Gen/BrokerProg.v'], gen_mods=['BrokerProg'],
+    coq=['Model/Matcher.v', 'Model/Order.v', 'Model/Broker.v', 'Proofs/OrderFacts.v', 'Proofs/BrokerFacts.v', 'Gen/BrokerProg.v', 'Model/Phases.v', 'Gen/ApiPhases.v'], gen_mods=['BrokerProg', 'ApiPhases'],
     rule=('random order streams with cancels at any later point (resting, already final, in the auction, under next-bar matching), several '
           'orders per bar, orders placed from TRADE / order-event handlers in the middle of a matching round, split futures closes with rejected legs, partial fills under volume caps, matcher-side rejects and expiry at the close; '
           'a case is the whole life of one order: its inputs (submit / match outcomes / cancel / day boundaries) replayed through the per-order '
